@@ -154,7 +154,8 @@ def source_scan():
 # theorems about the correspondence glue itself (value syntax of the line protocol), audited by every check
 GLUE_MODULES = ["GraafVerif.Thm.Glue"]
 GLUE_THEOREMS = ["GraafVerif.Glue." + t for t in ("line_roundtrip", "value_roundtrip_in_context", "unbalanced_rejected",
-                                                  "numeral_read_back", "accessors_invert_encoders", "arcs_roundtrip")]
+                                                  "numeral_read_back", "accessors_invert_encoders", "arcs_roundtrip",
+                                                  "verdict_sound")]
 
 
 def check_proofs(pid, props, thorough):
